@@ -7,6 +7,7 @@ library's zoneinfo (not from pytz), so the conversion done by the implementation
 independent oracle."""
 import copy
 import datetime as D
+import re
 import time
 
 from harness import core
@@ -14,15 +15,14 @@ from harness.core import z, coq_list, coq_opt, coq_str, coq_bool
 
 PID = "C20"
 GEN_GROUPS = ["ClientShape"]
-TARGETS = ["coq/Props/C20.vo", "coq/Props/C20_findings.vo", "coq/Model/Client.vo"]
-EXTRA_PROP_FILES = ["coq/Props/C20_findings.v"]
+TARGETS = ["coq/Props/C20.vo", "coq/Model/Client.vo"]
 CASES = {"quick": 700, "thorough": 5000}
 CORR_HEADER = ("From Coq Require Import ZArith List String.\n"
                "From ACN Require Import Base.Num Model.Client.\nImport ListNotations.\n"
                "Open Scope string_scope.\nOpen Scope Z_scope.\n")
 CHECK_FN = "check_c20"
 SHARD = 60
-RULE = ("fake transport serving 0..6 pages (empty pages, missing / surplus next links, responses running out) of "
+RULE = ("corpus/C20 witnesses first (year-999 round trip, fixed in 87c5f78); fake transport serving 0..6 pages (empty pages, missing / surplus next links, responses running out) of "
         "documents with RFC-1123 fields and time series in 9 zones around DST transitions, near years 1 / 9999, "
         "non-date strings, malformed timestamps, missing / unknown time zones; every combination of site "
         "(valid / invalid) x cond x project x sort x timeseries; get_sessions_by_time with aware bounds; "
@@ -32,7 +32,7 @@ ASSUMPTIONS = [
     "datetimes handed to http_date / get_sessions_by_time are tz-aware (a naive one is interpreted in the machine's local zone by CPython)",
     "strptime's leniencies (case-insensitive names, one-digit fields, runs of blanks) are outside the model; generators emit canonical RFC-1123 strings and clearly malformed ones",
     "a time zone is an oracle (zone name -> UTC instant -> offset); offsets for the model are taken from zoneinfo for instants in 1971..2037 and from fixed-offset zones elsewhere",
-    "strftime('%a %b') in the C locale; '%Y' as the C library renders it (probed once per run: padded or not)",
+    "strftime('%a %b') in the C locale",
 ]
 TRUSTED_EXTRA = ["the fake transport (harness/c20.py) standing in for requests / the ACN-Data server",
                  "zoneinfo (system tz database) as the offset oracle"]
@@ -42,7 +42,6 @@ DAYN = ["Mon", "Tue", "Wed", "Thu", "Fri", "Sat", "Sun"]
 MONN = ["Jan", "Feb", "Mar", "Apr", "May", "Jun", "Jul", "Aug", "Sep", "Oct", "Nov", "Dec"]
 DST_ZONES = ["America/Los_Angeles", "Europe/Berlin", "Australia/Sydney", "America/St_Johns", "America/New_York"]
 FIXED_ZONES = {"UTC": 0, "Etc/GMT+8": -8 * 3600, "Etc/GMT-14": 14 * 3600, "Asia/Kolkata": 19800, "Asia/Kathmandu": 20700}
-KNOWN_SIG = "http-date-year-lt-1000"
 
 
 # ------------------------------------------------------------------------------------------------
@@ -129,14 +128,6 @@ def rand_instant_zone(rng):
 # ------------------------------------------------------------------------------------------------
 # the implementation side
 # ------------------------------------------------------------------------------------------------
-def pad_variant():
-    """does the implementation's http_date zero-pad years below 1000?  (probed once)"""
-    import pytz
-    from acnportal.acndata.utils import http_date
-    s = http_date(pytz.utc.localize(D.datetime(999, 1, 2, 3, 4, 5)))
-    return " 0999 " in s
-
-
 class FakeResponse:
     def __init__(self, payload):
         self._payload = payload
@@ -394,7 +385,7 @@ def pages_coq(payloads, opq):
     return coq_list(out)
 
 
-def build_run_case(rng, by_time, pad):
+def build_run_case(rng, by_time):
     import pytz
     timeseries = rng.random() < 0.3
     payloads, metas = rand_pages(rng, timeseries)
@@ -414,7 +405,6 @@ def build_run_case(rng, by_time, pad):
                     n += 1
             ids.append(m)
     base_c = coq_str(base if base is not None else "https://ev.caltech.edu/api/v1/")
-    known = False
     if not by_time:
         cond, project, sort = rng.choice(CONDS), rng.choice(PROJECTS), rng.choice(SORTS)
         kwargs = {}
@@ -445,12 +435,11 @@ def build_run_case(rng, by_time, pad):
         me = rng.choice([None, None, 0, 5, 1.5, 10.25])
         kw = dict(start=st, end=en, min_energy=me, timeseries=timeseries)
         urls, auths, yielded, err = run_client(base, token, lambda c: c.get_sessions_by_time(site, **kw), payloads)
-        known = any(b is not None and b.astimezone(pytz.utc).year < 1000 for b in (st, en))
         inp = dict(op="get_sessions_by_time", base=base, site=site, start=str(st), end=str(en), min_energy=me,
                    timeseries=timeseries,
                    start_inst=None if st is None else secs_of(st) - int(st.utcoffset().total_seconds()),
                    end_inst=None if en is None else secs_of(en) - int(en.utcoffset().total_seconds()))
-        head = "CRunByTime %s %s %s %s %s %s %s %s %s" % (coq_bool(pad), "%s", base_c, coq_str(site), st_c, en_c,
+        head = "CRunByTime %s %s %s %s %s %s %s %s" % ("%s", base_c, coq_str(site), st_c, en_c,
                                                      coq_opt(None if me is None else "{0}".format(me), coq_str),
                                                      coq_bool(timeseries), pages_c)
     flat = [d for p in payloads for d in p["_items"]]
@@ -465,12 +454,12 @@ def build_run_case(rng, by_time, pad):
     impl = dict(urls=urls, auths=[list(a) if a else a for a in auths], yielded=[obs_doc(g) for g in yielded], outcome=err)
     shape = "%dp/%s%s" % (len(payloads), "ts" if timeseries else "s", "/err" if err else "")
     return dict(input=inp, impl=impl, coq=coq, kind=("by_time:" if by_time else "get_sessions:") + shape,
-                sig=KNOWN_SIG if known else [inp["op"], site, str(inp.get("cond")), [len(p["_items"]) for p in payloads],
-                                             [d.get("_id") for d in flat][:3]],
-                nontrivial=True, metas=metas, known=known)
+                sig=[inp["op"], site, str(inp.get("cond")), [len(p["_items"]) for p in payloads],
+                     [d.get("_id") for d in flat][:3]],
+                nontrivial=True, metas=metas)
 
 
-def build_date_case(rng, pad):
+def build_date_case(rng):
     import pytz
     from acnportal.acndata.utils import http_date, parse_http_date
     t, zone = rand_instant_zone(rng)
@@ -495,53 +484,72 @@ def build_date_case(rng, pad):
     dt0 = pytz.utc.localize(naive_of(t)).astimezone(tz)
     if rng.random() < 0.1:       # an aware datetime whose UTC equivalent is out of range
         dt0 = pytz.FixedOffset(rng.choice([600, -600])).localize(rng.choice([D.datetime(1, 1, 1, 3), D.datetime(9999, 12, 31, 22)]))
-    a_c = dt_aware_coq(dt0)
+    if r < 0.6:
+        return http_date_case(dt0)
+    return roundtrip_case(dt0, rng.choice([zone, "UTC"]))
+
+
+def http_date_case(dt0, kind="http_date"):
+    from acnportal.acndata.utils import http_date
     inst = secs_of(dt0) - int(dt0.utcoffset().total_seconds())      # the instant, computed here
-    in_rng = MIN_T <= inst <= MAX_T
-    low_year = in_rng and naive_of(inst).year < 1000
     s, serr = None, None
     try:
         s = http_date(dt0)
     except Exception as e:  # noqa
         serr = exc_label(e)
-    known = low_year and not pad
-    if r < 0.6:
-        exp = "(Ok %s)" % coq_str(s) if s is not None else '(Err "%s")' % serr
-        return dict(input=dict(op="http_date", dt=str(dt0), inst=inst), impl=dict(s=s) if s is not None else dict(error=serr),
-                    coq="(CHttpDate %s %s %s)" % (coq_bool(pad), a_c, exp), kind="http_date" + ("" if s else "/err"),
-                    sig=KNOWN_SIG if known else ["http_date", str(dt0)], nontrivial=True, known=known)
-    zone2 = rng.choice([zone, "UTC"])
+    exp = "(Ok %s)" % coq_str(s) if s is not None else '(Err "%s")' % serr
+    return dict(input=dict(op="http_date", dt=str(dt0), inst=inst), impl=dict(s=s) if s is not None else dict(error=serr),
+                coq="(CHttpDate %s %s)" % (dt_aware_coq(dt0), exp), kind=kind + ("" if s else "/err"),
+                sig=["http_date", str(dt0)], nontrivial=True)
+
+
+def roundtrip_case(dt0, zone2, kind="roundtrip"):
+    import pytz
+    from acnportal.acndata.utils import http_date, parse_http_date
+    inst = secs_of(dt0) - int(dt0.utcoffset().total_seconds())
     off2 = oracle_offset(zone2, inst)
     if off2 is None or not (MIN_T <= inst + off2 <= MAX_T):
         zone2, off2 = "UTC", 0
-    back, berr = None, None
-    if s is None:
-        berr = serr
-    else:
-        try:
-            back = parse_http_date(s, pytz.timezone(zone2))
-        except Exception as e:  # noqa
-            berr = exc_label(e)
+    s, back, berr = None, None, None
+    try:
+        s = http_date(dt0)
+        back = parse_http_date(s, pytz.timezone(zone2))
+    except Exception as e:  # noqa
+        berr = exc_label(e)
     exp = "(Ok %s)" % dt_aware_coq(back) if back is not None else '(Err "%s")' % berr
     impl = dict(s=s, back=None if back is None else dict(ts=back.timestamp(), off=back.utcoffset().total_seconds()),
                 error=berr)
     return dict(input=dict(op="roundtrip", dt=str(dt0), zone=zone2, inst=inst), impl=impl,
-                coq="(CRoundTrip %s %s %s %s %s)" % (coq_bool(pad), tabs_coq({zone2: {inst: off2}}), coq_str(zone2), a_c, exp),
-                kind="roundtrip" + ("/err" if back is None else ""),
-                sig=KNOWN_SIG if known else ["rt", str(dt0), zone2], nontrivial=True, known=known)
+                coq="(CRoundTrip %s %s %s %s)" % (tabs_coq({zone2: {inst: off2}}), coq_str(zone2), dt_aware_coq(dt0), exp),
+                kind=kind + ("/err" if back is None else ""), sig=["rt", str(dt0), zone2], nontrivial=True)
+
+
+def corpus_cases():
+    """witnesses of fixed findings (corpus/C20/*.json), re-run first on every check"""
+    import glob, json, os, pytz
+    out = []
+    for path in sorted(glob.glob(os.path.join(core.ROOT, "corpus", "C20", "*.json"))):
+        with open(path) as f:
+            w = json.load(f)
+        dt0 = pytz.utc.localize(D.datetime(*w["input"]["utc"]))
+        tag = "corpus:" + os.path.basename(path)[:-5]
+        for c in (http_date_case(dt0, "corpus/http_date"), roundtrip_case(dt0, w["input"].get("zone", "UTC"), "corpus/roundtrip")):
+            c["sig"] = [tag] + c["sig"]
+            c["input"]["corpus"] = tag
+            out.append(c)
+    return out
 
 
 def gen_cases(rng, n, tier):
-    pad = pad_variant()
-    cases = []
+    cases = corpus_cases()
     while len(cases) < n:
         r = rng.random()
         if r < 0.45:
-            cases.append(build_run_case(rng, False, pad))
+            cases.append(build_run_case(rng, False))
         elif r < 0.6:
-            cases.append(build_run_case(rng, True, pad))
+            cases.append(build_run_case(rng, True))
         else:
-            cases.append(build_date_case(rng, pad))
+            cases.append(build_date_case(rng))
     return cases
 
 
@@ -718,8 +726,6 @@ def search(rng, budget_s, broken):
     t0 = time.time()
     while time.time() - t0 < budget_s:
         for c in gen_cases(rng, 150, "quick"):
-            if c.get("sig") == KNOWN_SIG:
-                continue
             r = monitor(c)
             if r:
                 return dict(case=c["input"], impl=c["impl"], why=r)
@@ -742,8 +748,15 @@ def replay(w):
             for d in p["_items"]:
                 metas.append(dict(zone=d.get("timezone"), dates=_dates_of(d)))
         return monitor(dict(input=inp, impl=impl, metas=metas))
-    if op == "roundtrip" or op == "http_date":
-        return w.get("why") if _year999_fails() else None
+    if op in ("roundtrip", "http_date"):
+        m = re.match(r"(\d+)-(\d+)-(\d+) (\d+):(\d+):(\d+)([+-])(\d+):(\d+)", inp["dt"])
+        if not m:
+            return None
+        g = [int(x) if x not in "+-" else x for x in m.groups()]
+        mins = (g[7] * 60 + g[8]) * (1 if g[6] == "+" else -1)
+        dt0 = pytz.FixedOffset(mins).localize(D.datetime(*g[:6])) if mins else pytz.utc.localize(D.datetime(*g[:6]))
+        c = http_date_case(dt0) if op == "http_date" else roundtrip_case(dt0, inp.get("zone", "UTC"))
+        return monitor(c)
     return None
 
 
@@ -767,21 +780,3 @@ def _dates_of(d):
             for s in v["timestamps"]:
                 visit(s)
     return out
-
-
-def _year999_fails():
-    import pytz
-    from acnportal.acndata.utils import http_date, parse_http_date
-    dt = pytz.utc.localize(D.datetime(999, 6, 15, 12, 30, 45))
-    try:
-        back = parse_http_date(http_date(dt), pytz.utc)
-        return back != dt
-    except Exception:  # noqa
-        return True
-
-
-def replay_known(entry):
-    """open finding: http_date does not zero-pad years below 1000, so parse_http_date rejects its output"""
-    if entry.get("sig") != KNOWN_SIG:
-        return "not re-checked"
-    return "parse_http_date(http_date(0999-06-15 12:30:45 UTC)) fails" if _year999_fails() else None
